@@ -644,7 +644,7 @@ def random_inputs(model_bytes, rng, sg_info=None, n=1, scale=None, spread=False)
     return out
 
 
-def gen_tied(rng, shared_bias=0.0, nsg=None):
+def gen_tied(rng, shared_bias=0.0, nsg=None, extras=True):
     """models with tied constants: one buffer referenced by several tensors (within / across subgraphs)
     and one constant tensor feeding 2..3 operators. With probability `shared_bias` the FULLY_CONNECTED ops of a subgraph
     also share ONE bias tensor while reading inputs of different ranges (the bias scale input_scale*weight_scale then differs
@@ -746,7 +746,7 @@ def gen_tied(rng, shared_bias=0.0, nsg=None):
             outs.append(y)
             kinds.append("ELEMENTWISE_CONST")
             info["tags"].add("tied_elementwise")
-        if rng.random() < 0.3:
+        if extras and rng.random() < 0.3:
             # the shared constant is ALSO read by an operator the quantizer does not know (GATHER is what converters emit for
             # tf.gather / nn.Embedding; MAXIMUM stands for any elementwise op outside its table): that reader needs the float bytes
             c = g.tensor(gr.name("wu"), [o, f], buffer=shared_buf) if rng.random() < 0.4 else w0
@@ -770,7 +770,7 @@ def gen_tied(rng, shared_bias=0.0, nsg=None):
                 outs.append(y)
                 kinds.append("MAXIMUM")
             info["tags"].add("tied_unknown_op_reader")
-        if rng.random() < 0.3:
+        if extras and rng.random() < 0.3:
             # two SCALAR constants (shape []: one element) over one buffer, as converters de-duplicate `x + 0.5` and `x * 0.5`;
             # a recipe may cover only one of the two readers
             val = np.array(rng.choice([0.5, -1.25, 3.0]), np.float32)
